@@ -897,6 +897,8 @@ impl<'w> EntityWorldMut<'w>
     pub fn id(&self) -> Entity { self.entity }
     pub fn get<C: Component>(&self) -> Option<&C> { self.world.get::<C>(self.entity) }
     pub fn get_mut<C: Component>(&mut self) -> Option<Mut<'_, C>> { self.world.get_mut::<C>(self.entity) }
+    pub fn into_mut<C: Component>(self) -> Option<Mut<'w, C>> { self.world.get_mut::<C>(self.entity) }
+    pub fn into_borrow<C: Component>(self) -> Option<&'w C> { let w: &'w World = self.world; w.get::<C>(self.entity) }
     pub fn contains<C: Component>(&self) -> bool { self.world.m_has::<C>(self.entity) }
     pub fn insert<B: Bundle>(&mut self, bundle: B) -> &mut Self
     {
